@@ -1,21 +1,55 @@
-(** C07 — exported theorems (statements only; proofs in Proofs*.v).
+(** C07 — exported theorems (statements only; proofs in W*.v / Proofs*.v).
 
     Model: Slots/Model.v (runner/ollamarunner/cache.go + the text path of runner.go over the kvcache.Cache
-    interface), with fixes/C07-shift-reset.patch applied.  [run F cfg (init parallel) ops] is the state after an
-    arbitrary history [ops] of accepted/rejected completion requests ([Submit]) and batches ([Step]); [F] is an
-    arbitrary network+sampler (a function of the history the cache exposes); [cfg] carries context size, batch size,
-    slot policy, whether the model can shift, whether the cache can erase partially / resume, and the EOS token;
-    [parallel] is the number of slots.  All of these are universally quantified.  The theorems over histories carry
-    the hypothesis [window cfg = None] (no sliding-window cache); [C07_no_double_use] holds for every cache. *)
+    interface), with fixes/C07-shift-reset.patch and fixes/C07-stop-trim-negative.patch applied.
+    [run F cfg (init parallel) ops] is the state after an arbitrary history [ops] of accepted/rejected completion
+    requests ([Submit]) and batches ([Step]); [F] is an arbitrary network+sampler (a function of the history the cache
+    exposes); [cfg] carries context size, batch size, slot policy, whether the model can shift, whether the cache can
+    erase partially / resume, the EOS token and the sliding window (None: plain causal cache; Some w:
+    kvcache.NewSWACache w); [parallel] is the number of slots.  All of these are universally quantified.
+
+    Hypotheses of the theorems over histories:
+    - [1 <= numCtx cfg] (NewInputCache refuses less);
+    - [win_ok cfg]: a window size is >= 1;
+    - [Forall (op_guard cfg) ops]: on a sliding-window cache every request has keep = 0 (or the cache refuses
+      partial erasure).  This is the guard that excludes the known finding C07-swa-middle-remove-* (a context shift
+      that keeps a prefix reaches back into evicted cells); without it the statement is false
+      ([C07_model_sees_effective_input_refuted]).  Without a window both conditions are vacuous ([no_window_ok]).
+    Cache capacity is not part of the model (known finding C07-swa-capacity is about capacity). *)
 From Coq Require Import List ZArith Bool Arith Lia.
-From V Require Import Slots.Model Slots.ProofsKv Slots.ProofsSlots Slots.ProofsBatch Slots.ProofsRef Slots.ProofsNoFail Slots.ProofsTerm.
+From V Require Import Slots.Model Slots.ProofsKv Slots.ProofsWin Slots.WSlots Slots.WBatch Slots.WRef Slots.WNoFail Slots.WTerm Slots.Llama Slots.LlamaProofs.
 Import ListNotations.
 Open Scope Z_scope.
 
-(** After any history, for every slot: a slot in use holds in the cache exactly its recorded inputs, at positions
-    0..n-1, nothing else; an idle slot holds exactly its recorded inputs below position n (it may keep entries at
-    positions >= n after a stop sequence shortened the record: LoadCacheSlot erases from numPast <= n on reuse). *)
+Lemma no_window_ok cfg ops : window cfg = None -> win_ok cfg /\ Forall (op_guard cfg) ops.
+Proof.
+  intro H. split; [intros w Hw; congruence|]. apply Forall_forall. intros o _. destruct o; cbn; [left; exact H|exact I].
+Qed.
+
+(** After any history, for every slot, the sequence of that slot holds in the cache exactly the recorded inputs from
+    some position [lo] on ([wenum lo inputs] = the pairs (p, inputs[p]) for p >= lo):
+    - without a sliding window [lo <= 0]: everything;
+    - a slot in use holds nothing else, and [lo <= wlo cfg n] = max 0 (n - w): the whole window before its next
+      position n is stored;
+    - an idle slot may also keep entries at positions >= n after a stop sequence shortened the record (LoadCacheSlot
+      erases from numPast <= n on reuse), and on a window cache any suffix (CanResume decides at reuse). *)
 Theorem C07_slot_matches_cache :
+  forall (F : list (Z * tok) -> tok) cfg parallel ops,
+    1 <= numCtx cfg -> win_ok cfg -> Forall (op_guard cfg) ops ->
+    let st := run F cfg (init parallel) ops in
+    forall i, (i < length (slots st))%nat ->
+      let s := nth_slot (slots st) i in
+      exists lo, (window cfg = None -> lo <= 0) /\
+        filter (fun e => fst e <? zlen (s_inputs s)) (view (kv st) i) = wenum lo (s_inputs s) /\
+        (s_inuse s = true -> view (kv st) i = wenum lo (s_inputs s) /\ lo <= wlo cfg (zlen (s_inputs s))).
+Proof.
+  intros F cfg parallel ops Hc Hw Hg st i Hi. destruct (reachable_inv F cfg parallel ops Hc Hw Hg) as [Hm _].
+  exact (inv_slots_ok _ _ _ _ _ Hm i Hi).
+Qed.
+Print Assumptions C07_slot_matches_cache.
+
+(** the same without a window, in the plain form: exactly the enumeration of the inputs *)
+Corollary C07_slot_matches_cache_nowindow :
   forall (F : list (Z * tok) -> tok) cfg parallel ops,
     1 <= numCtx cfg -> window cfg = None ->
     let st := run F cfg (init parallel) ops in
@@ -24,12 +58,13 @@ Theorem C07_slot_matches_cache :
       filter (fun e => fst e <? zlen (s_inputs s)) (view (kv st) i) = enumerate 0 (s_inputs s) /\
       (s_inuse s = true -> view (kv st) i = enumerate 0 (s_inputs s)).
 Proof.
-  intros F cfg parallel ops Hc Hw st i Hi. destruct (reachable_inv F cfg parallel ops Hc Hw) as [Hm _].
-  exact (inv_slots_ok _ _ _ _ _ Hm i Hi).
+  intros F cfg parallel ops Hc Hn st i Hi s. destruct (no_window_ok cfg ops Hn) as [Hw Hg].
+  destruct (C07_slot_matches_cache F cfg parallel ops Hc Hw Hg i Hi) as (lo & Hlo & H1 & H2).
+  fold st s in H1, H2. rewrite (wenum_le0 lo) in * by auto. split; [exact H1|]. intro Hu. apply (H2 Hu).
 Qed.
-Print Assumptions C07_slot_matches_cache.
+Print Assumptions C07_slot_matches_cache_nowindow.
 
-(** LoadCacheSlot never returns a slot whose InUse flag is set — whatever the slots, cache and prompt. *)
+(** LoadCacheSlot never returns a slot whose InUse flag is set — whatever the slots, cache (window or not) and prompt. *)
 Theorem C07_no_double_use :
   forall cfg clk sl kv0 prompt sl' kv' i rest,
     load_cache_slot cfg clk sl kv0 prompt = Ok (sl', kv', i, rest) ->
@@ -41,7 +76,7 @@ Print Assumptions C07_no_double_use.
     use, and a request accepted next gets a slot that no live sequence holds. *)
 Theorem C07_no_double_use_reachable :
   forall (F : list (Z * tok) -> tok) cfg parallel ops,
-    1 <= numCtx cfg -> window cfg = None ->
+    1 <= numCtx cfg -> win_ok cfg -> Forall (op_guard cfg) ops ->
     let st := run F cfg (init parallel) ops in
     (forall i1 i2 q1 q2, nth i1 (seqs st) None = Some q1 -> nth i2 (seqs st) None = Some q2 -> q_slot q1 = q_slot q2 -> i1 = i2) /\
     (forall i q, nth i (seqs st) None = Some q -> s_inuse (nth_slot (slots st) (q_slot q)) = true) /\
@@ -50,7 +85,7 @@ Theorem C07_no_double_use_reachable :
         exists q, nth idx (seqs (fst (submit cfg st prompt np keep stops))) None = Some q /\
                   forall j q2, nth j (seqs st) None = Some q2 -> q_slot q2 <> q_slot q).
 Proof.
-  intros F cfg parallel ops Hc Hw st. pose proof (reachable_inv F cfg parallel ops Hc Hw) as Hinv. fold st in Hinv.
+  intros F cfg parallel ops Hc Hw Hg st. pose proof (reachable_inv F cfg parallel ops Hc Hw Hg) as Hinv. fold st in Hinv.
   destruct Hinv as [Hm Hin]. split; [|split].
   - exact (mo_inj _ _ _ _ _ Hm).
   - intros i q E. exact (lo_inuse _ _ _ _ _ (mo_live _ _ _ _ _ Hm i q E)).
@@ -59,24 +94,52 @@ Proof.
 Qed.
 Print Assumptions C07_no_double_use_reachable.
 
-(** The effective input of a request is a function of the request alone: [ref_win F cfg keep W0 j] is the window
-    from which its j-th token is sampled, where W0 = prompt after truncation, keep = normalised keep count (both
-    computed by NewSequence from prompt, keep and the context size: [C07_submit_records_request]); feeding a token
-    into a full window first discards [shift_discard] inputs after the first [keep].
-    After any history, for every token sampled for any request, the history the cache exposed to the batch entry
-    that produced the logits is exactly the enumeration of that window - nothing foreign, nothing missing, every
-    position right - and the token is the network's answer to it. *)
+(** The effective input of a request is a function of the request alone: [ref_win F cfg keep W0 j] is the list of
+    inputs from which its j-th token is sampled, where W0 = prompt after truncation, keep = normalised keep count
+    (both computed by NewSequence from prompt, keep and the context size: [C07_submit_records_request]); feeding a
+    token into a full context first discards [shift_discard] inputs after the first [keep].  What the network is shown
+    of it is [ref_vis cfg W]: every position with its input, restricted to the last w+1 positions on a window cache.
+    After any history, for every token sampled for any request, the history the cache exposed to the batch entry that
+    produced the logits is exactly that - nothing foreign, nothing missing, every position right - and the token is
+    the network's answer to it. *)
 Theorem C07_model_sees_effective_input :
   forall (F : list (Z * tok) -> tok) cfg parallel ops,
-    1 <= numCtx cfg -> window cfg = None ->
+    1 <= numCtx cfg -> win_ok cfg -> Forall (op_guard cfg) ops ->
     let st := run F cfg (init parallel) ops in
     forall r W0 keep np stops, In (EvSubmit r W0 keep np stops) (log st) ->
       forall j t vis, nth_error (samples_of r (log st)) j = Some (t, vis) ->
-        vis = enumerate 0 (ref_win F cfg keep W0 j) /\ t = F vis.
+        vis = ref_vis cfg (ref_win F cfg keep W0 j) /\ t = F vis.
 Proof.
-  intros F cfg parallel ops Hc Hw st. destruct (reachable_inv2 F cfg Hw parallel ops Hc) as (_ & Hlok & _). exact Hlok.
+  intros F cfg parallel ops Hc Hw Hg st. destruct (reachable_inv2 F cfg Hw parallel ops Hc Hg) as (_ & Hlok & _). exact Hlok.
 Qed.
 Print Assumptions C07_model_sees_effective_input.
+
+(** The statement without the guard on window caches is false: with window 3, context 6 and keep 2 the fifth token of
+    a lone request is computed without position 1, which lies in its window (the kept prefix was evicted before the
+    shift moved the recent entries down).  This is the known finding C07-swa-middle-remove-* / C06-swa-middle-remove. *)
+Definition C07_model_sees_effective_input_full : Prop :=
+  forall (F : list (Z * tok) -> tok) cfg parallel ops,
+    1 <= numCtx cfg -> win_ok cfg ->
+    let st := run F cfg (init parallel) ops in
+    forall r W0 keep np stops, In (EvSubmit r W0 keep np stops) (log st) ->
+      forall j t vis, nth_error (samples_of r (log st)) j = Some (t, vis) ->
+        vis = ref_vis cfg (ref_win F cfg keep W0 j) /\ t = F vis.
+Definition mid_cfg : config := mkCfg 6 8 false true true true (-1) (Some 3).
+Definition mid_ops : list op := Submit [1;2;3] 8 2 [] :: repeat Step 8.
+Theorem C07_model_sees_effective_input_refuted : ~ C07_model_sees_effective_input_full.
+Proof.
+  intro H.
+  assert (Hw : win_ok mid_cfg) by (intros w E; injection E as <-; lia).
+  assert (Hc : 1 <= numCtx mid_cfg) by (cbn; lia).
+  pose proof (H (hash_vis 6) mid_cfg 1%nat mid_ops Hc Hw) as H1. cbn zeta in H1.
+  assert (Hin : In (EvSubmit 0 [1;2;3] 2 8 []) (log (run (hash_vis 6) mid_cfg (init 1) mid_ops))) by (vm_compute; left; reflexivity).
+  assert (Hn : nth_error (samples_of 0 (log (run (hash_vis 6) mid_cfg (init 1) mid_ops))) 4 = Some (5, [(2,2);(3,1);(4,3)])) by (vm_compute; reflexivity).
+  pose proof (H1 0%nat [1;2;3] 2 8 [] Hin 4%nat 5 [(2,2);(3,1);(4,3)] Hn) as H2.
+  destruct H2 as [H2 _]. vm_compute in H2. discriminate.
+Qed.
+Print Assumptions C07_model_sees_effective_input_refuted.
+(** [C07_model_sees_effective_input] above is the partial statement: its guard [Forall (op_guard cfg) ops] excludes
+    exactly that class ([C07_guard_satisfiable_window] below shows it is satisfiable on a window cache). *)
 
 Theorem C07_submit_records_request :
   forall cfg st prompt np keep stops idx,
@@ -90,8 +153,9 @@ Print Assumptions C07_submit_records_request.
     ANY two histories - in particular one of them alone on a fresh server with an empty cache, with any number of
     slots - are given the same tokens, position by position, from the same visible histories. *)
 Theorem C07_same_as_fresh :
-  forall (F : list (Z * tok) -> tok) cfg, 1 <= numCtx cfg -> window cfg = None ->
+  forall (F : list (Z * tok) -> tok) cfg, 1 <= numCtx cfg -> win_ok cfg ->
     forall parallel ops parallel' ops' r r' W0 keep np stops np' stops',
+      Forall (op_guard cfg) ops -> Forall (op_guard cfg) ops' ->
       let st := run F cfg (init parallel) ops in
       let st' := run F cfg (init parallel') ops' in
       In (EvSubmit r W0 keep np stops) (log st) -> In (EvSubmit r' W0 keep np' stops') (log st') ->
@@ -100,9 +164,9 @@ Theorem C07_same_as_fresh :
         nth_error (samples_of r' (log st')) j = Some (t', vis') ->
         t = t' /\ vis = vis'.
 Proof.
-  intros F cfg Hc Hw parallel ops parallel' ops' r r' W0 keep np stops np' stops' st st' H1 H2 j t vis t' vis' E1 E2.
-  destruct (C07_model_sees_effective_input F cfg parallel ops Hc Hw r W0 keep np stops H1 j t vis E1) as [A1 A2].
-  destruct (C07_model_sees_effective_input F cfg parallel' ops' Hc Hw r' W0 keep np' stops' H2 j t' vis' E2) as [B1 B2].
+  intros F cfg Hc Hw parallel ops parallel' ops' r r' W0 keep np stops np' stops' Hg Hg' st st' H1 H2 j t vis t' vis' E1 E2.
+  destruct (C07_model_sees_effective_input F cfg parallel ops Hc Hw Hg r W0 keep np stops H1 j t vis E1) as [A1 A2].
+  destruct (C07_model_sees_effective_input F cfg parallel' ops' Hc Hw Hg' r' W0 keep np' stops' H2 j t' vis' E2) as [B1 B2].
   subst. auto.
 Qed.
 Print Assumptions C07_same_as_fresh.
@@ -112,8 +176,9 @@ Print Assumptions C07_same_as_fresh.
     e.g. alone on a fresh runner - never gets more than n tokens, and if it has finished there too it got exactly n
     and finished for the same reason.  ([nsamples r l] = number of tokens sampled for request r in log l.) *)
 Theorem C07_same_length_as_fresh :
-  forall (F : list (Z * tok) -> tok) cfg, 1 <= numCtx cfg -> window cfg = None ->
+  forall (F : list (Z * tok) -> tok) cfg, 1 <= numCtx cfg -> win_ok cfg ->
     forall parallel ops parallel' ops' r r' W0 keep np stops rs,
+      Forall (op_guard cfg) ops -> Forall (op_guard cfg) ops' ->
       let st := run F cfg (init parallel) ops in
       let st' := run F cfg (init parallel') ops' in
       In (EvSubmit r W0 keep np stops) (log st) -> In (EvSubmit r' W0 keep np stops) (log st') ->
@@ -121,9 +186,9 @@ Theorem C07_same_length_as_fresh :
       (nsamples r' (log st') <= nsamples r (log st))%nat /\
       (forall rs', In (EvDone r' rs') (log st') -> nsamples r' (log st') = nsamples r (log st) /\ rs' = rs).
 Proof.
-  intros F cfg Hc Hw parallel ops parallel' ops' r r' W0 keep np stops rs st st' H1 H2 Hd.
-  destruct (reachable_inv2 F cfg Hw parallel ops Hc) as (_ & _ & I1 & _).
-  destruct (reachable_inv2 F cfg Hw parallel' ops' Hc) as (_ & _ & I2 & _).
+  intros F cfg Hc Hw parallel ops parallel' ops' r r' W0 keep np stops rs Hg Hg' st st' H1 H2 Hd.
+  destruct (reachable_inv2 F cfg Hw parallel ops Hc Hg) as (_ & _ & I1 & _).
+  destruct (reachable_inv2 F cfg Hw parallel' ops' Hc Hg') as (_ & _ & I2 & _).
   eapply (same_end F cfg st st'); eauto; apply reachable_inv3; auto.
 Qed.
 Print Assumptions C07_same_length_as_fresh.
@@ -157,10 +222,8 @@ Example C07_example_submit :
   snd (submit ex_cfg (run (hash_vis 6) ex_cfg (init 2) (firstn 3 ex_ops)) [1;2;3;4;5;1] 6 0 []) = RSubmitted 0.
 Proof. vm_compute. reflexivity. Qed.
 
-(** Sliding-window caches (cfg with [window = Some w]) are part of the executable model (eviction in StartForward,
-    the window in the mask, CanResume as the window predicate) and are compared with kvcache.NewSWACache on every
-    run, but the theorems above are proved for [window = None] only.  This example pins what the model says about
-    the position LoadCacheSlot asks CanResume about: window 5, a 7-token prompt evaluated in batches of 2, two
+(** Sliding-window caches: this example pins what the model says about the position LoadCacheSlot asks CanResume
+    about: window 5, a 7-token prompt evaluated in batches of 2, two
     tokens generated, the same prompt again.  The slot records 8 inputs, the cache still holds positions 2..7;
     resuming at 7 (= len(prompt)) would be possible, but one input must be left to sample, so the slot is resumed at
     6, whose window needs position 1: the model (as the code) asks about 6, gets "no" and reloads from scratch. *)
@@ -183,18 +246,29 @@ Example C07_pinned_reset_leaves_cells :
   view (kv_trunc (kv st) 1 0) 1 = [].
 Proof. vm_compute. repeat split; auto. Qed.
 
+(** the guard is satisfiable on a window cache: the history of the previous example (keep = 0) *)
+Example C07_guard_satisfiable_window : win_ok swa_cfg /\ Forall (op_guard swa_cfg) swa_ops.
+Proof.
+  split; [intros w E; injection E as <-; lia|].
+  apply Forall_forall. intros o Ho. destruct o; cbn; [|exact I].
+  destruct Ho as [Ho|Ho]; [injection Ho as _ _ <- _; right; left; reflexivity|].
+  apply repeat_spec in Ho. discriminate.
+Qed.
+
 (** After any history, neither accepting a request nor a batch fails: LoadCacheSlot finds a slot whenever a sequence
     entry is free (no "no available cache slots", no nil dereference in findBestCacheSlot), ShiftCacheSlot's
     "keep exceeds context" is unreachable, and the stop handling never slices with a negative bound (this last part
-    is what fixes/C07-stop-trim-negative.patch repairs; a panic in processBatch kills every in-flight request). *)
+    is what fixes/C07-stop-trim-negative.patch repairs; a panic in processBatch kills every in-flight request).
+    (Cache capacity is not modelled: "could not find a kv cache slot" on a window cache is known finding
+    C07-swa-capacity.) *)
 Theorem C07_no_runner_failure :
   forall (F : list (Z * tok) -> tok) cfg parallel ops o,
-    1 <= numCtx cfg -> window cfg = None ->
+    1 <= numCtx cfg -> win_ok cfg -> Forall (op_guard cfg) ops ->
     match snd (step_op F cfg (run F cfg (init parallel) ops) o) with
     | RPanic | RFatal | RLoadErr => False
     | _ => True
     end.
-Proof. intros F cfg parallel ops o Hc Hw. apply step_op_no_failure; auto. apply reachable_inv; auto. Qed.
+Proof. intros F cfg parallel ops o Hc Hw Hg. apply step_op_no_failure; auto. apply reachable_inv; auto. Qed.
 Print Assumptions C07_no_runner_failure.
 
 (** a full context always frees at least one entry, and never more than what is not kept *)
@@ -204,3 +278,56 @@ Theorem C07_shift_discard_bounds :
     1 <= shift_discard cfg inputLen numKeep /\ numKeep + shift_discard cfg inputLen numKeep <= inputLen.
 Proof. exact shift_discard_bounds. Qed.
 Print Assumptions C07_shift_discard_bounds.
+
+(** * runner/llamarunner/cache.go (Slots/Llama.v: its LoadCacheSlot / findBestCacheSlot fork / ShiftCacheSlot over the
+    llama.cpp cache calls, as a transition system of load / decode / shift / stop-trim / release)
+
+    The slot = cache statement for every history of the llamarunner input cache: *)
+Definition C07_llama_slot_matches_cache_full : Prop :=
+  forall cfg parallel ops, 1 <= numCtx cfg -> window cfg = None ->
+    let st := lrun cfg (linit parallel) ops in
+    forall i, (i < length (l_slots st))%nat ->
+      let s := nth_slot (l_slots st) i in
+      filter (fun e => fst e <? zlen (s_inputs s)) (view (l_kv st) i) = enumerate 0 (s_inputs s) /\
+      (s_inuse s = true -> view (l_kv st) i = enumerate 0 (s_inputs s)).
+
+(** It is false with the multi-user policy: findBestCacheSlot forks with KvCacheSeqCp, which SHARES the cells between
+    the two sequences, and ShiftCacheSlot's KvCacheSeqAdd moves every cell that carries the shifted sequence - also for
+    the other sequence (llama_kv_cache_unified::seq_add).  Witness: context 8; [1..6] evaluated in slot 0 and
+    released; [1,2,3,4,5,9] forks 5 cells into slot 1 and grows to 8 inputs; the shift (keep 0, discard 4) moves the
+    shared cell at position 4 to position 0: slot 0 still records [1..6] but its sequence now has two cells at
+    position 0 and none at 4.  (ollamarunner's Go cache refuses such a shift and the inputs are reprocessed.)
+    Found by reading + this model; llama.cpp cannot be run here (no model file), so it is not confirmed by execution. *)
+Definition ll_cfg : config := mkCfg 8 8 true true true true (-1) None.
+Definition ll_ops : list lop :=
+  [LLoad [1;2;3;4;5;6] true; LDecode 0 [1;2;3;4;5;6]; LRelease 0; LLoad [1;2;3;4;5;9] true; LDecode 1 [9;7;8]; LShift 1 0].
+Theorem C07_llama_slot_matches_cache_refuted : ~ C07_llama_slot_matches_cache_full.
+Proof.
+  intro H. assert (Hc : 1 <= numCtx ll_cfg) by (cbn; lia).
+  pose proof (H ll_cfg 2%nat ll_ops Hc eq_refl 0%nat) as H0. cbn zeta in H0.
+  assert (Hlen : (0 < length (l_slots (lrun ll_cfg (linit 2) ll_ops)))%nat) by (vm_compute; lia).
+  destruct (H0 Hlen) as [H1 _]. vm_compute in H1. discriminate.
+Qed.
+Print Assumptions C07_llama_slot_matches_cache_refuted.
+
+(** With the single-user policy (the default: no fork, no shared cell) it holds for every history, context size, keep
+    count, with or without shift support / partial erasure. *)
+Theorem C07_llama_slot_matches_cache_partial :
+  forall cfg parallel ops, window cfg = None -> multiUser cfg = false ->
+    let st := lrun cfg (linit parallel) ops in
+    forall i, (i < length (l_slots st))%nat ->
+      let s := nth_slot (l_slots st) i in
+      filter (fun e => fst e <? zlen (s_inputs s)) (view (l_kv st) i) = enumerate 0 (s_inputs s) /\
+      (s_inuse s = true -> view (l_kv st) i = enumerate 0 (s_inputs s)).
+Proof.
+  intros cfg parallel ops Hn Hs st i Hi. destruct (lrun_inv cfg (linit parallel) ops Hn Hs (linit_inv parallel)) as [_ H].
+  exact (H i Hi).
+Qed.
+Print Assumptions C07_llama_slot_matches_cache_partial.
+
+(** non-vacuity: a single-user history with a successful shift *)
+Example C07_llama_example :
+  let cfg := mkCfg 4 8 false true true true (-1) None in
+  let st := lrun cfg (linit 1) [LLoad [1;2] true; LDecode 0 [1;2]; LDecode 0 [3;4]; LShift 0 1; LDecode 0 [5]] in
+  map (fun s => (s_inputs s, s_inuse s)) (l_slots st) = [([1;3;4;5], true)] /\ view (l_kv st) 0 = [(0,1);(1,3);(2,4);(3,5)].
+Proof. vm_compute. split; reflexivity. Qed.
